@@ -193,6 +193,18 @@ def main(argv=None):
             per_contract.append(pc)
         else:
             bounded_out.append(r)
+            known_obl = set()
+            for kf in findings:
+                if kf.get("status") == "open":
+                    known_obl |= set(kf.get("obligations", []))
+            known_here = []
+            for f in list(r.get("failures", [])):
+                oid = r["id"] + (":" + str(f.get("what"))[:80] if isinstance(f, dict) and f.get("what") else "")
+                if oid in known_obl:
+                    # a recorded finding, identified by its specific cell: not a new violation
+                    known_here.append(oid)
+                    r["failures"].remove(f)
+            r["known_findings_hit"] = known_here
             for f in r.get("failures", [])[:400]:
                 violations.append({"obligation": r["id"] + (":" + str(f.get("what"))[:80] if isinstance(f, dict) and f.get("what") else ""), "bounded": True, "replayed": True, "witness": f, "contract": r["id"]})
 
@@ -277,7 +289,7 @@ def main(argv=None):
         "solver_s": round(solver_s, 2),
         "samples": samples or [{"note": "no proof obligation sample in this run"}],
         "bounded": [
-            {"id": b["id"], "cases": b.get("cases", 0), "distinct_nontrivial": b.get("distinct", b.get("cases", 0)), "exhaustive": bool(b.get("exhaustive", False)), "bound": b.get("bound", ""), "failures": len(b.get("failures", [])), "wall_s": round(b.get("wall_s", 0), 2), "sample": b.get("sample")}
+            {"id": b["id"], "cases": b.get("cases", 0), "distinct_nontrivial": b.get("distinct", b.get("cases", 0)), "exhaustive": bool(b.get("exhaustive", False)), "bound": b.get("bound", ""), "failures": len(b.get("failures", [])), "known_findings_hit": b.get("known_findings_hit", []), "wall_s": round(b.get("wall_s", 0), 2), "sample": b.get("sample")}
             for b in bounded_out
         ],
         "known_findings": kf_out,
